@@ -35,6 +35,7 @@ from ural.quote import (
 from ural.patterns import PROTOCOL_RE, CONTROL_CHARS_RE, ASCII_FLAG
 from ural.facebook import is_facebook_url, parse_facebook_url
 from ural.youtube import is_youtube_url, normalize_youtube_url
+from ural.tld import get_domain_name
 
 IRRELEVANT_QUERY_PATTERN = r"^(?:__twitter_impression|_guc_consent_skip|guccounter|fb_action_types|(?:php|asp|j)?sessionid|fb_action_ids|fb_source|echobox|feature|recruiter|_unique_id|twclid|mibextid|campaignid|adgroupid|cn-reloaded|ao_noptimize|mkt_tok|fbclid|igshid|refid|gclid|mc_cid|mc_eid|__tn__|_ft_|dclid|wpamp|fref|usqp|ncid|mtm_.+|utm_.+%s|s?een|cftoken|cfid|sid|xt(?:loc|ref|cr|np|or|s)|at_.+|_ga)$"
 
@@ -165,6 +166,30 @@ def should_strip_fragment(fragment):
     return fragment.startswith("/") or fragment.startswith("!")
 
 
+def strip_irrelevant_subdomains_from_hostname(hostname, normalize_amp=True):
+    pattern = IRRELEVANT_SUBDOMAIN_AMP_RE if normalize_amp else IRRELEVANT_SUBDOMAIN_RE
+
+    if not pattern.search(hostname):
+        return hostname
+
+    # NOTE: the domain itself can be named like an irrelevant subdomain
+    # (mobile.de, m.fr, amp.dev), only what stands before it can be dropped
+    stem = hostname.rstrip(".")
+
+    try:
+        domain = get_domain_name(stem)
+    except ValueError:
+        domain = None
+
+    if domain and stem.endswith(domain):
+        subdomains = stem[: len(stem) - len(domain)]
+
+        return pattern.sub("", subdomains) + hostname[len(subdomains) :]
+
+    # NOTE: a hostname made of irrelevant labels only is kept, nothing would remain
+    return pattern.sub("", hostname) or hostname
+
+
 def normalize_hostname(hostname, normalize_amp=True):
     # NOTE: same order as normalize_url: control characters go first, and the
     # irrelevant labels are looked for in the decoded hostname
@@ -172,10 +197,7 @@ def normalize_hostname(hostname, normalize_amp=True):
     hostname = hostname.strip().lower()
     hostname = decode_punycode_hostname(hostname).lower()
 
-    pattern = IRRELEVANT_SUBDOMAIN_AMP_RE if normalize_amp else IRRELEVANT_SUBDOMAIN_RE
-
-    # NOTE: a hostname made of irrelevant labels only is kept, nothing would remain
-    hostname = pattern.sub("", hostname) or hostname
+    hostname = strip_irrelevant_subdomains_from_hostname(hostname, normalize_amp)
 
     if normalize_amp and hostname.startswith("amp-") and len(hostname) > 4:
         hostname = hostname[4:]
@@ -408,18 +430,8 @@ def normalize_url(
         path = ""
 
     # Dropping irrelevant subdomains
-    # NOTE: a hostname made of irrelevant labels only is kept, nothing would remain
     if hostname and strip_irrelevant_subdomains:
-        hostname = (
-            re.sub(
-                IRRELEVANT_SUBDOMAIN_AMP_RE
-                if normalize_amp
-                else IRRELEVANT_SUBDOMAIN_RE,
-                "",
-                hostname,
-            )
-            or hostname
-        )
+        hostname = strip_irrelevant_subdomains_from_hostname(hostname, normalize_amp)
 
     # Dropping scheme
     if strip_protocol or not has_protocol:
